@@ -102,8 +102,7 @@ def _sym_params(seed, A, B):
     torch.manual_seed(seed)
     u = torch.rand(A * B)
     phi = u * 4 * math.pi
-    phi[: (A * B) // A] = 0.0
-    return u, phi
+    return u, phi  # RAW angles: zeroing the first `rows // num_augment` of them is the model's business (`symParams`)
 
 
 def _q(v: float) -> int:
@@ -122,7 +121,7 @@ def _check_symmetric(ctx, rows, A, fai, seed):
     B, N = len(rows), len(rows[0])
     witness = {"fn": "symmetric", "A": A, "first_aug_identity": fai, "torch_seed": seed, "rows": rows}
     u, phi = _sym_params(seed, A, B)
-    c, s, swap = torch.cos(phi), torch.sin(phi), phi > 2 * math.pi
+    c, s, swap = torch.cos(phi), torch.sin(phi), phi > 2 * math.pi  # raw draws, handed to the model as they are
     # hypothesis of `symmetric_isometry`, checked on the sampled angles
     dev = float((c.double() ** 2 + s.double() ** 2 - 1).abs().max())
     if dev > 1e-6:
@@ -196,7 +195,7 @@ def _check_transform_direct(ctx):
     for k in range(6):
         prm = f"{_q(c[k])} {_q(s[k])} {int(swap[k])}"
         xs = " ".join(f"{x * ((1 << KSYM) // GRID)} {y * ((1 << KSYM) // GRID)}" for (x, y) in rows[k])
-        f = parse_fields(ctx.driver.ask(f"aug.sym {KSYM} 1 1 {N} {1 << (KSYM - 1)} | {prm} | {xs}"))
+        f = parse_fields(ctx.driver.ask(f"aug.symraw {KSYM} 1 1 {N} {1 << (KSYM - 1)} | {prm} | {xs}"))
         model = ac.parse_pts(f.get("out", ""), frac=True)[0]
         real = out[k].double().tolist()
         worst = max(abs(float(model[j][t]) - real[j][t]) for j in range(N) for t in range(2))
@@ -232,6 +231,28 @@ def _check_normalize(ctx, rows, fn, A, seed):
     want = (plain - lo) / (hi - lo)
     if float((want - normed).abs().max()) > 1e-6:
         ctx.disagreement("aug: normalize=True is not min-max of the un-normalised output", {"fn": fn, "A": A, "rows": rows})
+    # the Lean model of min_max_normalize (exact rationals) on the un-normalised real output, and its theorem's claim:
+    # ONE ratio for the whole batch — every squared distance of every row is scaled by ratio²
+    N = len(rows[0])
+    vals = " ".join(str(int(Fraction(float(v)) * (1 << KSYM))) for v in plain.flatten().tolist())
+    f = parse_fields(ctx.driver.ask(f"aug.normalize {KSYM} {N} | {vals}"))
+    if f.get("out") not in (None, "degenerate"):
+        model = ac.parse_pts(f["out"], frac=True)
+        real = normed.double().tolist()
+        worst = max(abs(float(model[r][j][k]) - real[r][j][k]) for r in range(len(real)) for j in range(N) for k in range(2))
+        if worst > 1e-5:
+            ctx.disagreement("aug: min_max_normalize differs from the model", {"worst": worst, "fn": fn, "A": A, "rows": rows})
+        ratio = float(Fraction(f["ratio"]))
+        pl = plain.double().tolist()
+        for r in range(len(real)):
+            for i in range(N):
+                for j in range(i + 1, N):
+                    d0 = ac.sq(tuple(pl[r][i]), tuple(pl[r][j]))
+                    d1 = ac.sq(tuple(real[r][i]), tuple(real[r][j]))
+                    if abs(d1 - ratio * ratio * d0) > 1e-5 * max(1.0, ratio * ratio):
+                        ctx.violation("normalize.not_a_similarity", "normalize=True does not scale all distances by one common ratio",
+                                      {"row": r, "ratio": ratio, "fn": fn, "A": A, "rows": rows})
+        ctx.count("normalize=True: similarity with one ratio for the whole batch checked")
     ctx.count("normalize=True (similarity; excluded from the isometry claim)")
     ctx.case(("norm", fn, A, seed, tuple(map(tuple, rows))), nontrivial=False)
 
@@ -311,8 +332,10 @@ def run_transform(ctx):
 TRANSFORM_NOTE = ("coordinates modelled over a commutative ring (exact grid integers / rationals in the driver); float32 cos/sin, "
                   "the float rounding of (x-0.5)+0.5 and torch.rand are glue: the angles are re-drawn with the same torch seed and "
                   "c²+s²=1 is checked on the sampled angles (tolerance 1e-6); symmetric outputs compared within 1e-5, dihedral exactly")
-NORMALIZE_NOTE = ("normalize=True (min-max over the whole batch) is a similarity, not an isometry, and is excluded from the isometry "
-                  "claim; it is off by default and the evaluators never enable it")
+NORMALIZE_NOTE = ("normalize=True (min-max over the whole batch) is a similarity, not an isometry: excluded from the isometry claim, "
+                  "covered by its own theorems (one common ratio, costs scale by one factor, order of solutions preserved; the ratio "
+                  "1/(max-min) and the homogeneity of sqrt are hypotheses) and by the correspondence with the exact model; it is off by "
+                  "default and the evaluators never enable it")
 
 
 def _exists(rel):
@@ -321,10 +344,12 @@ def _exists(rel):
 
 C15_ISO = "Rl4co/Props/C15/AugIsometry.lean"
 C15_EVAL = "Rl4co/Props/C15/AugEval.lean"
+C15_NORM = "Rl4co/Props/C15/AugNormalize.lean"
 
 register(Unit(
     "C15", "aug_transform", run_transform, drivers=["drv_aug"],
-    lean_modules=["Rl4co.Props.C15.AugIsometry"] if _exists(C15_ISO) else ["Rl4co.Train.Augment"],
+    lean_modules=(["Rl4co.Props.C15.AugIsometry"] + (["Rl4co.Props.C15.AugNormalize"] if _exists(C15_NORM) else []))
+    if _exists(C15_ISO) else ["Rl4co.Train.Augment"],
     theorems=[
         Theorem("Rl4co.Augment.dihedral_isometry", "proved", "each map of the extracted dihedral table preserves squared distance (any commutative ring)"),
         Theorem("Rl4co.Augment.dihedral_first_id", "proved", "copy 0 of dihedral_8_augmentation is the identity"),
@@ -339,7 +364,14 @@ register(Unit(
         Theorem("Rl4co.Augment.stateAugSym_all_isometric", "proved", "StateAugmentation(symmetric): unit (c,s) per row and φ=0 on the first B rows ⇒ every row is an isometric image of its instance, first B rows are the originals"),
         Theorem("Rl4co.Augment.stateAug_all_isometric_partial", "partial", "first_aug_identity=True ⇒ every augmented row is an isometric image of its instance and the first B rows are the originals"),
         Theorem("Rl4co.Augment.first_aug_identity_false_counterexample", "proved", "¬ (the same statement with first_aug_identity=False): row B keeps node 0 un-transformed"),
-    ] if _exists(C15_ISO) else [],
+    ] + ([
+        Theorem("Rl4co.Augment.first_rows_are_batch", "proved", "the extracted bound `xy.shape[0] // num_augment`, with num_augment forwarded by StateAugmentation, zeroes exactly the first B of the A·B angles"),
+        Theorem("Rl4co.Augment.symParams_ok", "proved", "the parameters symmetric_augmentation really uses (raw draws + phi[:B]=0) satisfy the side conditions: first B rows identity, all rows unit rotations"),
+        Theorem("Rl4co.Augment.stateAugSymDraws_all_isometric", "proved", "StateAugmentation(symmetric, num_augment=A) from RAW draws: every row isometric image of its instance, first B rows the originals, for every A > 0"),
+        Theorem("Rl4co.Augment.normalize_similarity", "proved", "normalize=True: min_max_normalize scales every squared distance by the one ratio r² of the batch"),
+        Theorem("Rl4co.Augment.normalize_cost_scales", "proved", "normalize=True: tour / routes costs of every action list scale by one common factor ρ"),
+        Theorem("Rl4co.Augment.normalize_preserves_order", "proved", "normalize=True: the order of any two solutions by cost is unchanged (ρ > 0)"),
+    ] if _exists(C15_NORM) else []) if _exists(C15_ISO) else [],
     assumptions=[TRANSFORM_NOTE, NORMALIZE_NOTE] + ([] if _exists(C15_ISO) else ["no theorem yet: correspondence + spec oracle only"]),
 ))
 
@@ -978,8 +1010,41 @@ def _ffsp_call(pol, env, td, **kw):
     return pol(td, env, phase="test")
 
 
+def _check_cache_replication(ctx):
+    """`PrecomputedCache.batchify(S)` on tagged tensors vs the model (`cacheReplicate`), and the claim of
+    `cache_state_aligned`: row s*B+b of every expanded field, and of `batchify(td, S)`, is instance b"""
+    from rl4co.models.zoo.am.decoder import PrecomputedCache
+    from rl4co.utils.ops import batchify
+
+    for B in (1, 2, 3, 5):
+        for S in (1, 2, 3, 4):
+            tags = [100 + 7 * b for b in range(B)]
+            t = torch.tensor(tags, dtype=torch.float32).reshape(B, 1, 1).expand(B, 3, 2).contiguous()
+            cache = PrecomputedCache(node_embeddings=t.clone(), graph_context=0, glimpse_key=t.clone() + 1000,
+                                     glimpse_val=t.clone() + 2000, logit_key=t.clone() + 3000)
+            big = cache.batchify(num_starts=S)
+            state = batchify(TensorDict({"tag": torch.tensor(tags)}, batch_size=[B]), S)["tag"].tolist()
+            model = ac.parse_ints(parse_fields(ctx.driver.ask(f"aug.cache {S} | " + " ".join(map(str, tags)))).get("rows", ""))
+            ctx.case(("cache", B, S))
+            for name, off in (("node_embeddings", 0), ("glimpse_key", 1000), ("glimpse_val", 2000), ("logit_key", 3000)):
+                rows = [int(v) - off for v in getattr(big, name)[:, 0, 0].tolist()]
+                if rows != model:
+                    ctx.disagreement("aug: PrecomputedCache.batchify differs from the model", {"field": name, "B": B, "S": S, "real": rows, "model": model})
+                if rows != state or any(rows[s * B + b] != tags[b] for s in range(S) for b in range(B)):
+                    ctx.violation("am:cache_row_not_own_instance:multistart",
+                                  "PrecomputedCache.batchify: row s*B+b of the expanded cache is not instance b's cache (the state rows are "
+                                  "start-major), so multi-start decoding with a dynamic embedding scores states against another instance",
+                                  {"field": name, "B": B, "S": S, "cache_rows_instances": rows, "state_rows_instances": state})
+            if big.graph_context != 0:
+                ctx.disagreement("aug: non-tensor cache field was changed by batchify", {"B": B, "S": S})
+    ctx.count("PrecomputedCache.batchify (B, S) factorisations compared", 16)
+
+
 def _run_zoo(ctx, names):
     import aug_zoo as zoo
+
+    if "am" in names:
+        _check_cache_replication(ctx)
 
     for _rep in range(ctx.budget(1, 5)):  # fresh random weights and instance pools each round
         for pname, build, envs, ms in zoo.ZOO:
@@ -998,12 +1063,19 @@ GROUPS = {
 }
 
 C14_FILE = "Rl4co/Props/C14/AugDecode.lean"
-C14_NOTE = ("THINNEST PROOF OF THE PLAN: the Lean theorems cover the decoding LOOP and the REGROUPING only (batched loop = map of "
-            "per-row runs, solo run = prefix of the batch row, idle tail invisible under the C04 idle-step law, unbatchify/rearrange "
-            "round trip); the hypothesis `RowWise π` — embeddings, attention and normalisation layers do not mix rows in eval mode — "
-            "is a property of the PyTorch networks and is CHECKED ON SAMPLES here (random weights, tiny sizes, eval mode: an instance "
-            "decoded alone vs at every position of batches of sizes 1,2,3,8 with unrelated and duplicated batch-mates; per-step "
-            "logits to 1e-4, actions / reward exactly unless the top-2 logit gap at some step is below 1e-4), NOT PROVED")
+C14_ROW = "Rl4co/Props/C14/AugRowWise.lean"
+C14_CACHE = "Rl4co/Props/C14/AugCache.lean"
+C14_NOTE = ("the Lean theorems cover (a) the decoding LOOP and the REGROUPING (batched loop = map of per-row runs, solo run = prefix of "
+            "the batch row, idle tail invisible under the C04 idle-step law, unbatchify/rearrange round trip, cache replication for "
+            "multi-start), and (b) the row-wise structure of the attention-model forward pass at the level of index algebra: row-local "
+            "layer kinds (linear, per-instance attention, instance / layer norm, eval-mode batch norm, mean pooling, context gather) compose "
+            "to a RowWise policy, and the kinds that break it (batch statistics, batch-mean gate, parameter read from row 0, row-major "
+            "random draws, squeeze at B = 1) are refuted by counterexamples.  WHAT STAYS SAMPLED, NOT PROVED: that each concrete PyTorch "
+            "module computes the per-row formula of its kind, and float rounding — checked here on random weights, tiny sizes, eval mode: "
+            "an instance decoded alone vs at every position of batches of sizes 1,2,3,8 with unrelated / duplicated batch-mates whose "
+            "per-instance parameters differ; per-step logits to 1e-4 (+4e-7·|logit| float term), actions / reward exactly unless the top-2 "
+            "gap is below the tolerance.  That the decoder keeps no state between calls is covered by the correspondence only (one policy "
+            "object decodes many equal-shaped batches in a row)")
 C14_THEOREMS = [
     Theorem("Rl4co.Eval.batchLoop_rowwise", "proved", "row-wise network ⇒ the batched loop is runN on every row; it stops at the first step where all rows are done"),
     Theorem("Rl4co.Eval.batch_eq_map_solo", "proved", "RowWise π ⇒ greedy decode of a batch = map of the per-row runs (any composition, position, size)"),
@@ -1011,11 +1083,37 @@ C14_THEOREMS = [
     Theorem("Rl4co.Eval.batch_reward_eq_solo", "proved", "… and with done absorbing + idle step reward-neutral (C04) the reward in the batch equals the solo reward"),
     Theorem("Rl4co.Eval.regroup_unbatch", "proved", "AM decoder multi-start regrouping: rearrange '(s b)' ∘ unbatchify(·, S) = id for every factorisation S·B"),
 ]
+C14_MODULES = ["Rl4co.Props.C14.AugDecode"]
+if _exists(C14_ROW):
+    C14_MODULES.append("Rl4co.Props.C14.AugRowWise")
+    C14_THEOREMS += [
+        Theorem("Rl4co.Eval.compL_rowLocal", "proved", "row-local layers compose"),
+        Theorem("Rl4co.Eval.zipL_rowLocal", "proved", "entry-wise combination of two row-local branches (residuals, context + graph context) is row-local"),
+        Theorem("Rl4co.Eval.normLayer_rowLocal", "proved", "instance norm, the code's layer norm and eval-mode batch norm are row-local"),
+        Theorem("Rl4co.Eval.encoderLayer_rowLocal", "proved", "one AM encoder layer norm(x+MHA(x)), norm(h+FF(h)) is row-local whenever its normalisation is"),
+        Theorem("Rl4co.Eval.amNetwork_rowLocal", "proved", "encoder stack of any depth + graph context + context gather is row-local unless the norm uses batch statistics"),
+        Theorem("Rl4co.Eval.rowWise_of_rowLocal", "proved", "row-local network + per-row decision = the RowWise hypothesis of batch_eq_map_solo"),
+        Theorem("Rl4co.Eval.batch_eq_map_solo_of_rowLocal", "proved", "greedy decoding with a network of row-local layers is per-instance"),
+        Theorem("Rl4co.Eval.batchNormTrain_not_rowLocal", "proved", "batch statistics (train mode / track_running_stats=False) mix rows"),
+        Theorem("Rl4co.Eval.batchMeanGate_not_rowLocal", "proved", "a gate computed from the batch mean mixes rows (MVMoE light decoder)"),
+        Theorem("Rl4co.Eval.readsRowZero_not_rowLocal", "proved", "a per-instance parameter read from row 0 mixes rows"),
+        Theorem("Rl4co.Eval.rngLayer_not_rowLocal", "proved", "row-major random draws make the output depend on the batch position (MatNet / MultiStageFFSP)"),
+        Theorem("Rl4co.Eval.squeezeAll_not_rowLocal", "proved", "a squeeze that drops the batch dim at B = 1 is not row-local (mTSP context before 182aaab)"),
+        Theorem("Rl4co.Eval.configured_norms_rowLocal_in_eval", "proved", "obligation on the extracted Normalization table: no configured kind uses batch statistics in eval mode"),
+        Theorem("Rl4co.Eval.layerNorm_dims_exclude_batch", "proved", "obligation: the 'layer' branch reduces over dims (1,2), never the batch dim"),
+    ]
+if _exists(C14_CACHE):
+    C14_MODULES.append("Rl4co.Props.C14.AugCache")
+    C14_THEOREMS += [
+        Theorem("Rl4co.Eval.cacheReplicate_row", "proved", "PrecomputedCache.batchify (extracted: ops.batchify, start-major): row s·B+b of an expanded field is instance b's row"),
+        Theorem("Rl4co.Eval.cache_state_aligned", "proved", "every expanded cache field and the batchify-ed state hold instance b at row s·B+b"),
+        Theorem("Rl4co.Eval.repeatInterleave_misaligned", "proved", "the instance-major alternative (repeat_interleave) pairs a state row with another instance's cache"),
+    ]
 
 for _name, _members in GROUPS.items():
     register(Unit(
         "C14", _name, (lambda members: (lambda ctx: _run_zoo(ctx, members)))(_members), drivers=["drv_aug"],
-        lean_modules=["Rl4co.Props.C14.AugDecode"] if _exists(C14_FILE) else ["Rl4co.Train.Eval"],
+        lean_modules=C14_MODULES if _exists(C14_FILE) else ["Rl4co.Train.Eval"],
         theorems=C14_THEOREMS if _exists(C14_FILE) else [],
         assumptions=[C14_NOTE, "policies that cannot be built or decoded offline are listed as `unavailable` in the evidence notes"],
     ))
